@@ -92,15 +92,17 @@ struct OffWorld {
   int ring_id(const Path64& p) { Path64 c = canon_path(p); auto it = ring_ids.find(c); if (it != ring_ids.end()) return it->second; int id = (int)ring_ids.size() + 1 + id_bias; ring_ids[c] = id; if (ring_os) (*ring_os) << Ev("Ring").kn("id", id).kv("p", jpath(c)).str() << "\n"; return id; }
   std::ostream* ring_os = nullptr; int id_bias = 0;   // rings first seen inside a forked chunk get ids that no other chunk uses   // every distinct ring is logged once, so the spec can decide class predicates on raw coordinates
   std::vector<long long> ids(const Paths64& ps) { std::vector<long long> v; for (auto& p : ps) v.push_back(ring_id(p)); std::sort(v.begin(), v.end()); return v; }
-  OffWorld(Rng& r, int G, int K, bool negative) {
+  bool mixed = false;   // mixed world: positive and negative polygon groups and open groups on one object (histories judged against a fresh object only)
+  OffWorld(Rng& r, int G, int K, bool negative, bool mixed_ = false) : mixed(mixed_) {
     // groups far apart (x offsets 4000 apart; deltas <= 30): they cannot interact
     auto place = [&](Path64 p, int g, int slot) { for (auto& q : p) { q.x += 4000 * g + 600 * slot; } return p; };
-    auto simple = [&](int g, int slot) { Path64 p = {{0, 0}, {r.range(80, 160), r.range(-10, 10)}, {r.range(90, 170), r.range(90, 160)}, {r.range(-10, 20), r.range(80, 150)}}; if (negative) std::reverse(p.begin(), p.end()); return place(p, g, slot); };
+    auto simple = [&](int g, int slot) { Path64 p = {{0, 0}, {r.range(80, 160), r.range(-10, 10)}, {r.range(90, 170), r.range(90, 160)}, {r.range(-10, 20), r.range(80, 150)}}; if (negative || (mixed && g % 4 == 2)) std::reverse(p.begin(), p.end()); return place(p, g, slot); };
     auto line = [&](int n, int g, int slot) { Path64 p; int64_t x = 0, y = 0; for (int i = 0; i < n; ++i) { p.emplace_back(x, y); x += r.range(40, 90); y += r.range(-60, 60); } return place(p, g, slot); };
     std::vector<JoinType> jts = {JoinType::Square, JoinType::Bevel, JoinType::Round, JoinType::Miter};
     for (int g = 1; g <= G; ++g) {
       OffGroup og; og.jt = jts[r.range(0, 3)]; og.units_by_path = true;
-      switch (negative ? (g % 2 ? 1 : 5) : g % 8) {
+      static const int mixcase[4] = {7, 1, 1, 3};   // g % 4: 0 polygon with hole (positive), 1 positive polygons, 2 negative polygons, 3 open (butt)
+      switch (mixed ? mixcase[g % 4] : negative ? (g % 2 ? 1 : 5) : g % 8) {
         case 1: og.et = EndType::Polygon; og.paths = {simple(g, 0), simple(g, 1)}; break;
         case 2: og.et = EndType::Joined; og.paths = {line(2, g, 0), line(4, g, 1), line(3, g, 2)}; break;      // 2-point path first (S2)
         case 3: og.et = EndType::Butt; og.paths = {line(3, g, 0), line(2, g, 1)}; break;
@@ -137,7 +139,7 @@ void run_off(OffWorld& w, const JV& hist, std::ostream& os, long long& nexec) {
     }
   }
   auto id = [](const std::string& s) { return s; };
-  os << Ev("Hist").ks("kind", "off").kv("steps", jarr(steps.begin(), steps.end(), id)).kv("obs", jarr(obs.begin(), obs.end(), id)).kv("fresh", jarr(fresh.begin(), fresh.end(), id)).str() << "\n";
+  os << Ev("Hist").ks("kind", w.mixed ? "offm" : "off").kv("steps", jarr(steps.begin(), steps.end(), id)).kv("obs", jarr(obs.begin(), obs.end(), id)).kv("fresh", jarr(fresh.begin(), fresh.end(), id)).str() << "\n";
 }
 
 // histories are replayed in forked chunks; a chunk whose child dies is replayed history by history so that the Crash event names the history
@@ -170,9 +172,9 @@ int cmd_hist(const Args& a) {
     os << Ev("World").ks("kind", kind).kv("s1", jpaths(w.set[1])).kv("s2", jpaths(w.set[2])).kv("s3", jpaths(w.set[3])).kv("s4", jpaths(w.set[4])).kv("s5", jpaths(w.set[5])).kv("s0", jpaths(w.set[0])).str() << "\n";
     run_chunked(in, os, skip, stride, nh, kind, [&](const std::string& l, std::ostream& o, long long) { JV h = jparse(l); if (kind == "c64") run_c64<Clipper64>(w, h, o, "c64", r, nexec); else run_c64<ClipperD>(w, h, o, "cd", r, nexec); });
   } else if (kind == "off") {
-    bool neg = argi(a, "negative", 0) != 0; OffWorld w(r, G, K, neg); w.ring_os = &os;
+    bool neg = argi(a, "negative", 0) != 0; const bool mixed = argi(a, "mixed", 0) != 0; OffWorld w(r, G, K, neg, mixed); w.ring_os = &os;
     // preamble: every unit (path, or whole group when it has holes) offset ALONE with its group's join/end type
-    for (int at = 0; at < 3; ++at) for (int rs = 0; rs < 2; ++rs) for (int d = 1; d <= K; ++d) for (int g = 1; g <= G; ++g) {
+    if (!mixed) for (int at = 0; at < 3; ++at) for (int rs = 0; rs < 2; ++rs) for (int d = 1; d <= K; ++d) for (int g = 1; g <= G; ++g) {
       auto& og = w.groups[g - 1]; std::vector<long long> all;
       std::vector<Paths64> units; if (og.units_by_path) for (auto& p : og.paths) units.push_back({p}); else units.push_back(og.paths);
       for (auto& u : units) { ClipperOffset co; co.ReverseSolution(rs); co.ArcTolerance(w.ats[at]); co.AddPaths(u, og.jt, og.et); Paths64 sol; co.Execute(w.deltas[d - 1], sol); ++nexec; for (long long x : w.ids(sol)) all.push_back(x); }
